@@ -5,12 +5,13 @@ from harness.core import pool, tb
 from harness.gen import systems
 from harness.props import _shared
 
-PROOF_MODULE = ["OdeVerif.Proofs.C08", "OdeVerif.Proofs.RefinePropagator"]
-GENERATED = ["PyPropagator"]
+PROOF_MODULE = ["OdeVerif.Proofs.C08", "OdeVerif.Proofs.RefinePropagator", "OdeVerif.Proofs.RefineParams"]
+GENERATED = ["PyPropagator", "PyParams"]
 THEOREMS = ["OdeVerif.C08.rowSymbols_closed", "OdeVerif.C08.used_propagators_defined", "OdeVerif.C08.diag_propagator_defined",
             "OdeVerif.C08.one_row_per_variable", "OdeVerif.C08.stateName_injective", "OdeVerif.C08.initialValue_found",
             "OdeVerif.C08.listed_iff_referenced", "OdeVerif.C08.prefix_filter_misses_initial_values",
-            "OdeVerif.Refine.propagatorSolver_error_iff", "OdeVerif.Refine.propagatorSolver_ok", "OdeVerif.Refine.propagatorSolver_ok_of_model"]
+            "OdeVerif.Refine.propagatorSolver_error_iff", "OdeVerif.Refine.propagatorSolver_ok", "OdeVerif.Refine.propagatorSolver_ok_of_model",
+            "OdeVerif.Refine.parameterFilter_refines", "OdeVerif.Refine.parameterFilter_none"]
 LEVEL = "proof"
 FUNCS = [("I_f", "exp(-t/tau_s)"), ("I_f", "(e/tau)*t*exp(-t/tau)")]
 
